@@ -217,12 +217,12 @@ func memTotal() uint64 {
 
 // runReader opens the stream with the pcap or snoop reader and calls the (zero-copy) read
 // function until an I/O-class error, a panic, or maxCalls calls.  measure: record allocation.
-func runReader(format string, zc bool, maxCalls int, rd io.Reader, measure bool) pcapRun {
+func runReader(format string, zc bool, maxCalls int, rd io.Reader, measure bool, sched ...map[int]uint32) pcapRun {
 	if !measure { // benign input (C14): no time limit needed
-		return runReaderInline(format, zc, maxCalls, rd, false)
+		return runReaderInline(format, zc, maxCalls, rd, false, sched...)
 	}
 	done := make(chan pcapRun, 1)
-	go func() { done <- runReaderInline(format, zc, maxCalls, rd, measure) }()
+	go func() { done <- runReaderInline(format, zc, maxCalls, rd, measure, sched...) }()
 	tm := time.NewTimer(20 * time.Second)
 	defer tm.Stop()
 	select {
@@ -233,7 +233,8 @@ func runReader(format string, zc bool, maxCalls int, rd io.Reader, measure bool)
 	}
 }
 
-func runReaderInline(format string, zc bool, maxCalls int, rd io.Reader, measure bool) (run pcapRun) {
+// sched (optional, classic pcap only): call index -> value given to Reader.SetSnaplen just before that call
+func runReaderInline(format string, zc bool, maxCalls int, rd io.Reader, measure bool, sched ...map[int]uint32) (run pcapRun) {
 	func() {
 		defer func() {
 			if r := recover(); r != nil {
@@ -307,6 +308,13 @@ func runReaderInline(format string, zc bool, maxCalls int, rd io.Reader, measure
 			var data []byte
 			var ci gopacket.CaptureInfo
 			var err error
+			if len(sched) > 0 {
+				if v, ok := sched[0][i]; ok {
+					if r, isPcap := pr.(*pcapgo.Reader); isPcap {
+						r.SetSnaplen(v)
+					}
+				}
+			}
 			if measure {
 				before = memTotal()
 			}
